@@ -5,6 +5,7 @@ from xvlib import Job
 PURE = dict(pkg="xv_pure", binname="xv_pure")
 MIRI = dict(pkg="xv_miri", binname="xv_miri", kind="miri", profile="miri")
 ASAN = dict(pkg="xv_pure", binname="xv_pure", kind="asan", tiers=("thorough",))
+ASAN_FULL = dict(pkg="xv_full", binname="xv_full", kind="asan", tiers=("thorough",))
 
 PROPS = {}
 
@@ -104,6 +105,7 @@ PROPS["C09"] = dict(
     jobs=[
         Job("shard_fmt", engine="shard_fmt", workers=(8, 12), cases=(40, 2500), time_s=(40, 700), args={"scale": (12, 60)}, **PURE),
         Job("shard_search", engine="shard_search", workers=(4, 4), cases=(60, 6000), time_s=(40, 700), args={"max-table": (50000, 200000)}, **PURE),
+        Job("asan-shard_fmt", engine="shard_fmt", workers=(8, 8), cases=(150, 150), time_s=(300, 300), args={"scale": 12}, **ASAN),
     ],
     gates=dict(evaluations=(400, 20000), distinct=(150, 400),
                counters={"lookups": (20000, 1000000), "search_queries": (500000, 20000000), "tables_beyond_read_window": (50, 2000)}),
@@ -291,6 +293,8 @@ PROPS["C12"] = dict(
         Job("cache_seq", engine="cache_seq", workers=(4, 4), cases=(250, 25000), time_s=(40, 700), **FULL),
         Job("cache_fault", engine="cache_fault", workers=(4, 4), cases=(340, 34000), time_s=(40, 700), **FULL),
         Job("cache_conc", engine="cache_conc", workers=(8, 8), cases=(150, 15000), time_s=(40, 700), **FULL),
+        Job("asan-cache_fault", engine="cache_fault", workers=(4, 4), cases=(1700, 1700), time_s=(300, 300), **ASAN_FULL),
+        Job("asan-cache_seq", engine="cache_seq", workers=(4, 4), cases=(600, 600), time_s=(300, 300), **ASAN_FULL),
     ],
     gates=dict(evaluations=(2500, 200000), distinct=(800, 20000),
                counters={"seq_hits_judged": (50000, 2000000), "seq_reopens": (1000, 50000), "fault_cases": (1000, 100000), "fault_hits_judged": (30000, 2000000), "concurrent_hits_judged": (500, 50000),
